@@ -67,7 +67,7 @@ def demo_place(src_dir, wt):
         for f in demo_go:
             names.update(re.findall(r"^func (Test\w+)\(", open(os.path.join(src_dir, f)).read(), re.M))
         run = "^(" + "|".join(sorted(names)) + ")$"
-        return f"go test -vet=off -count=1 -timeout 600s -run '{run}' .", cwd, placed
+        return f"go test -tags verif -vet=off -count=1 -timeout 600s -run '{run}' .", cwd, placed
     if os.path.exists(os.path.join(src_dir, "demo.sh")):
         return f"REPO={wt} WT={wt} sh {os.path.join(src_dir, 'demo.sh')} {wt}", wt, []
     return None, None, []
